@@ -28,6 +28,19 @@ fn comp_name(tpl: &str) -> String {
     format!("K_{}", tpl.replace(['/', '.'], "_"))
 }
 
+/// An include statement, sometimes nested in a construct that does not change what is rendered:
+/// `if true`, a one-element `for`, a captured `set` printed right away. All of them must still be
+/// collected as include edges. The choice is a pure function of (template, target).
+fn include_stmt(tpl: &str, target: &str) -> String {
+    let inc = format!("{{% include \"{}\" %}}", target);
+    match crate::rng::fnv1a(format!("{}>{}", tpl, target).as_bytes()) % 6 {
+        0 => format!("{{% if true %}}{}{{% endif %}}", inc),
+        1 => format!("{{% for zq in [1] %}}{}{{% endfor %}}", inc),
+        2 => format!("{{% set zs %}}{}{{% endset %}}{{{{ zs | safe }}}}", inc),
+        _ => inc,
+    }
+}
+
 pub fn render_src(s: &GSpec) -> String {
     let mut out = String::new();
     if let Some(e) = &s.extends {
@@ -38,20 +51,20 @@ pub fn render_src(s: &GSpec) -> String {
     if !comp_incs.is_empty() {
         out.push_str(&format!("{{% component {}() %}}({}", k, k));
         for (t, _) in &comp_incs {
-            out.push_str(&format!("{{% include \"{}\" %}}", t));
+            out.push_str(&include_stmt(&s.name, t));
         }
         out.push_str("){% endcomponent %}");
     }
     out.push_str(&format!("<{}|", s.name));
     for (t, p) in &s.incs {
         if *p == Place::Body {
-            out.push_str(&format!("{{% include \"{}\" %}}", t));
+            out.push_str(&include_stmt(&s.name, t));
         }
     }
     out.push_str(&format!("{{% block b %}}[{}.b", s.name));
     for (t, p) in &s.incs {
         if *p == Place::Block {
-            out.push_str(&format!("{{% include \"{}\" %}}", t));
+            out.push_str(&include_stmt(&s.name, t));
         }
     }
     if !comp_incs.is_empty() {
